@@ -30,6 +30,7 @@ deriving DecidableEq, Repr, Inhabited
 inductive Tk where
   | id (s : String) | num (s : String) | str (s : String) | bool (s : String) | null
   | p (x : P) | kw (s : String) | illegal | eof
+  | regex (s : String)   -- a regular expression literal as the PARSER sees it after re-scanning `/` or `/=` (expression.go:121)
 deriving DecidableEq, Repr, Inhabited
 
 structure Tok where
